@@ -31,6 +31,12 @@ Proof.
   rewrite (H x (or_introl eq_refl)), IH; [reflexivity|]. intros y Hy. apply H. now right.
 Qed.
 
+Lemma sumZ_le_pointwise {A} (f g : A -> Z) l : (forall x, In x l -> f x <= g x) -> sumZ (map f l) <= sumZ (map g l).
+Proof.
+  induction l as [|x r IH]; intros H; cbn [map]; rewrite ?sumZ_cons; [reflexivity|].
+  specialize (IH (fun y Hy => H y (or_intror Hy))). specialize (H x (or_introl eq_refl)). lia.
+Qed.
+
 Lemma sum_by_bidder_gen (f : bid -> Z) (U : list N) : forall bs,
   NoDup U -> (forall b, In b bs -> In (b_bidder b) U) ->
   sumZ (map (fun u => sumZ (map f (filter (fun b => N.eqb (b_bidder b) u) bs))) U) = sumZ (map f bs).
@@ -393,4 +399,179 @@ Proof.
       specialize (R a0 Hin0 Hxt). rewrite Hst0 in R. cbn [status_eqb] in R. rewrite Hid0, Hrem, Hsa, Hpd in R. exact R. }
   destruct Hgoal as [G1 G2]. split; [exact G1|]. split; [exact G2|].
   split; try assumption. exists Rr. auto.
+Qed.
+
+(* ------------------------------------------------------------------ a Started auction has no vesting queue yet *)
+Lemma started_no_vqs s a : Inv s -> find_auction s (a_id a) = Some a -> a_status a = Started -> vqs_of s (a_id a) = [].
+Proof.
+  intros I Fa Hst. destruct (vqs_of s (a_id a)) as [|v r] eqn:E; [reflexivity|]. exfalso.
+  assert (Hv : In v (vqs_of s (a_id a))) by (rewrite E; now left). apply in_vqs_of in Hv. destruct Hv as [Hv Ha].
+  destruct (inv_vqs _ I) as [W _]. rewrite Forall_forall in W.
+  destruct (vwf_auction _ _ (W v Hv)) as (a0 & Fa0 & [Hs|Hs] & _); rewrite Ha, Fa in Fa0; injection Fa0 as <-; congruence.
+Qed.
+
+(* ------------------------------------------------------------------ fixed price close *)
+Lemma close_fixed_live s a :
+  Inv s -> find_auction s (a_id a) = Some a -> a_status a = Started -> a_type a = FixedPrice ->
+  no_veto s H_BeforeAllocated = true ->
+  exists s', close_fixed s a = Ok s' /\ escrow_inv s' /\ remaining_inv s' /\ settled_facts s s' a.
+Proof.
+  intros I Fa Hst Hty Hnv. rewrite close_fixed_gen.
+  pose proof (Inv_book_wf s (a_id a) I) as BW.
+  pose proof (InvStaticBase_find_wf s a I Fa) as AW.
+  pose proof (PrecondBase.find_auction_id _ _ _ Fa) as [_ Hin].
+  apply (settle_escrow s a a); try reflexivity; try assumption.
+  - apply (inv_escrow _ I).
+  - apply (inv_remaining _ I).
+  - apply (ids_seq_ids_ok s (inv_ids _ I)).
+  - now apply started_no_vqs.
+  - intros u _. cbn [mi_alloc calc_fixed]. apply sumZ_nonneg. intros x Hx. apply in_map_iff in Hx.
+    destruct Hx as [b [<- Hb]]. apply filter_In in Hb. destruct Hb as [Hb _].
+    apply DecFacts.sell_amount_nonneg; [apply (MatchDemand.wf_amt _ _ BW b Hb)|apply (MatchDemand.wf_price _ _ BW b Hb)].
+  - unfold total_of. cbn [mi_bidders mi_alloc calc_fixed]. rewrite (sum_by_bidder (sell_amount (a_pay_denom a))).
+    pose proof (inv_remaining _ I a Hin Hty) as R. rewrite Hst in R. cbn [status_eqb] in R.
+    destruct (awf_fixed _ AW Hty) as (_ & _ & _ & _ & Hr). lia.
+  - discriminate.
+Qed.
+
+(* ------------------------------------------------------------------ batch close *)
+Lemma close_batch_live s orc a ids order :
+  Inv s -> find_auction s (a_id a) = Some a -> a_status a = Started -> a_type a = Batch ->
+  find (fun x => N.eqb (fst x) (a_id a)) orc = Some (a_id a, ids) ->
+  valid_order (bids_of s (a_id a)) ids = Some order ->
+  no_veto s H_BeforeAllocated = true ->
+  exists s', close_batch s orc a = Ok s' /\ escrow_inv s' /\ remaining_inv s'.
+Proof.
+  intros I Fa Hst Hty Horc HV Hnv.
+  pose proof (Inv_book_wf s (a_id a) I) as BW.
+  pose proof (InvStaticBase_find_wf s a I Fa) as AW.
+  pose proof (Inv_denoms_wf s a I Fa Hty) as DW.
+  assert (Hsup : 0 <= a_sell_amt a) by (pose proof (awf_amt _ AW); lia).
+  destruct (MatchBatch.calc_batch_spec a (bids_of s (a_id a)) ids order (allowed_of s (a_id a)) BW HV Hsup) as (mi & HC & _).
+  assert (HV' : valid_order (bids_of s (a_id a)) (oracle_ids orc (a_id a)) = Some order).
+  { unfold oracle_ids. rewrite Horc. exact HV. }
+  rewrite (close_batch_unfold s orc a order mi HV' HC).
+  destruct (flags_escrow s (a_id a) (mi_matched mi) (inv_escrow _ I) (inv_remaining _ I)) as [EF RF].
+  set (sf := set_flags s (a_id a) (mi_matched mi)) in *.
+  assert (Hndf : NoDup (map a_id (st_auctions sf))) by apply (ids_seq_ids_ok s (inv_ids _ I)).
+  assert (Faf : find_auction sf (a_id a) = Some a) by exact Fa.
+  destruct (decision s a mi).
+  - (* another round *)
+    eexists. split; [reflexivity|].
+    apply (put_auction_escrow sf a (extended s a mi) EF RF Hndf Faf); try reflexivity.
+    + cbn. rewrite Hst. auto.
+    + cbn. intros _. now left.
+    + cbn. rewrite Hst. discriminate.
+    + cbn. rewrite Hst. discriminate.
+    + rewrite Hst. discriminate.
+  - (* settlement *)
+    rewrite settle_batch_gen.
+    destruct (MatchConseq.batch_alloc_bounds a _ ids order _ mi BW HV Hsup HC) as (Ha1 & _ & Ha3 & Ha4).
+    destruct (MatchConseq.batch_refund_facts a _ ids order _ mi BW HV Hsup DW HC) as (Hr1 & _).
+    assert (Hmib : mi_bidders mi = bidders_of (bids_of s (a_id a))).
+    { unfold calc_batch in HC. destruct (search _ _ _ _ _); [|discriminate]. injection HC as <-. reflexivity. }
+    assert (Hapos : forall u, In u (mi_bidders mi) -> 0 <= mi_alloc mi u) by (intros u _; apply Ha1).
+    assert (Hatot : total_of (mi_bidders mi) (mi_alloc mi) <= a_sell_amt (set_matched_price a (mi_price mi))).
+    { unfold total_of. rewrite Hmib, Ha3. cbn [a_sell_amt set_matched_price]. lia. }
+    assert (Hrr : true = true -> (forall u, In u (mi_bidders mi) -> 0 <= mi_refund mi u) /\
+                  total_of (mi_bidders mi) (mi_refund mi)
+                  <= sumZ (map (pay_amount (a_pay_denom (set_matched_price a (mi_price mi))))
+                               (bids_of sf (a_id (set_matched_price a (mi_price mi)))))).
+    { intros _. split; [intros u _; apply Hr1|].
+      unfold total_of. rewrite Hmib. cbn [a_id a_pay_denom set_matched_price]. unfold sf.
+      rewrite (bids_of_set_flags_map (pay_amount (a_pay_denom a)) s (a_id a) (mi_matched mi) (a_id a)) by reflexivity.
+      rewrite <- (sum_by_bidder (pay_amount (a_pay_denom a)) (bids_of s (a_id a))).
+      apply sumZ_le_pointwise. intros u _. apply Hr1. }
+    destruct (settle_escrow sf a (set_matched_price a (mi_price mi)) mi true EF RF Hndf Faf Hst Hst
+                eq_refl eq_refl eq_refl eq_refl eq_refl (started_no_vqs s a I Fa Hst) Hnv Hapos Hatot Hrr)
+      as (s' & Hs' & G1 & G2 & _).
+    exists s'. auto.
+Qed.
+
+(* ------------------------------------------------------------------ vesting release *)
+Lemma sum_unreleased_after id t : forall vs,
+  (forall v, In v vs -> v_auction v = id) ->
+  sumZ (map v_amt (filter (fun v => negb (v_released v)) (map (VestingFacts.release_vq id t) vs)))
+  = sumZ (map v_amt (filter (fun v => negb (v_released v)) vs)) - sumZ (map v_amt (VestingFacts.due_of t vs)).
+Proof.
+  induction vs as [|v r IH]; intros Hid; [reflexivity|].
+  assert (Hr : forall x, In x r -> v_auction x = id) by (intros x Hx; apply Hid; now right).
+  specialize (IH Hr). cbn [map filter]. unfold VestingFacts.due_of in *. cbn [filter].
+  unfold VestingFacts.release_vq at 1. rewrite (Hid v (or_introl eq_refl)), N.eqb_refl. cbn [andb].
+  unfold vq_due in *. destruct (v_time v <=? t) eqn:Et; cbn [andb].
+  - destruct (v_released v) eqn:Er; cbn [negb].
+    + rewrite Er. cbn [negb]. exact IH.
+    + cbn [v_released set_v_released negb map]. rewrite !sumZ_cons. rewrite IH. lia.
+  - destruct (v_released v) eqn:Er; cbn [negb]; [exact IH|]. cbn [map]. rewrite !sumZ_cons, IH. lia.
+Qed.
+
+Lemma release_live s a t :
+  Inv s -> find_auction s (a_id a) = Some a -> a_status a = VestingS ->
+  exists s', release_loop s a t (vqs_of s (a_id a)) = Ok s' /\ escrow_inv s' /\ remaining_inv s'.
+Proof.
+  intros I Fa Hst.
+  destruct (inv_vqs _ I) as (W & Hnd & _). rewrite Forall_forall in W.
+  destruct (inv_escrow _ I) as [B E].
+  assert (Hq : forall v, In v (vqs_of s (a_id a)) -> 0 <= v_amt v /\ v_denom v = a_pay_denom a).
+  { intros v Hv. apply in_vqs_of in Hv. destruct Hv as [Hv Ha]. split; [apply (vwf_amt _ _ (W v Hv))|].
+    destruct (vwf_auction _ _ (W v Hv)) as (a0 & Fa0 & _ & _ & Hd & _). rewrite Ha, Fa in Fa0. injection Fa0 as <-. exact Hd. }
+  assert (Hfund : sumZ (map v_amt (filter (fun v => negb (v_released v)) (vqs_of s (a_id a))))
+                  <= st_bal s (Escrow Vesting (a_id a)) (a_pay_denom a)).
+  { specialize (E Vesting (a_id a) (a_pay_denom a)). unfold owed in E. rewrite Fa, Hst, N.eqb_refl in E. exact E. }
+  destruct (VestingFacts.release_loop_ok s a t Hnd Hq Hfund) as (s' & H & RS & _ & Hpaid & Hbv & Hbu & Hod & Hox & Hmono).
+  exists s'. split; [exact H|].
+  destruct (VestingFacts.release_own_spec s a t s' Hnd H) as (_ & _ & Hown & Hoth).
+  set (paid := sumZ (map v_amt (VestingFacts.due_of t (vqs_of s (a_id a))))) in *.
+  assert (Hb' : bal_ok s').
+  { intros x d. destruct (N.eq_dec d (a_pay_denom a)) as [->|Hd]; [|rewrite Hod by assumption; apply B].
+    destruct (addr_eqb x (Escrow Vesting (a_id a))) eqn:E1.
+    - apply addr_eqb_eq in E1. subst x. rewrite Hbv.
+      assert (paid <= sumZ (map v_amt (filter (fun v => negb (v_released v)) (vqs_of s (a_id a))))).
+      { unfold paid, VestingFacts.due_of. apply VestingFacts.sumZ_filter_le.
+        - intros v Hv. apply (Hq v Hv).
+        - intros v _ Hv. unfold vq_due in Hv. apply andb_true_iff in Hv. apply Hv. }
+      lia.
+    - apply addr_eqb_neq in E1. destruct (addr_eqb x (User (a_auctioneer a))) eqn:E2.
+      + apply addr_eqb_eq in E2. subst x. rewrite Hbu. specialize (B (User (a_auctioneer a)) (a_pay_denom a)). lia.
+      + apply addr_eqb_neq in E2. rewrite Hox by assumption. apply B. }
+  assert (Hbids : st_bids s' = st_bids s) by apply (VestingFacts.rs_bids _ _ _ _ _ RS).
+  assert (Hauc : st_auctions s' = if last_due_rec t (vqs_of s (a_id a)) then st_auctions (put_auction s (set_status a Finished)) else st_auctions s)
+    by apply (VestingFacts.rs_auctions _ _ _ _ _ RS).
+  (* the auction's record afterwards *)
+  assert (Fa' : exists a', find_auction s' (a_id a) = Some a' /\
+                  (a' = a \/ a' = set_status a Finished)).
+  { destruct (last_due_rec t (vqs_of s (a_id a))).
+    - exists (set_status a Finished). split; [|now right].
+      rewrite (find_auction_conv_put s s' (set_status a Finished) (a_id a) Hauc). cbn [a_id set_status]. rewrite N.eqb_refl, Fa. reflexivity.
+    - exists a. split; [|now left]. unfold find_auction. rewrite Hauc. exact Fa. }
+  destruct Fa' as (a' & Fa' & Ha').
+  assert (Hfind_other : forall j, j <> a_id a -> find_auction s' j = find_auction s j).
+  { intros j Hj. destruct (last_due_rec t (vqs_of s (a_id a))).
+    - rewrite (find_auction_conv_put s s' (set_status a Finished) j Hauc). cbn [a_id set_status].
+      apply N.eqb_neq in Hj. rewrite Hj. reflexivity.
+    - unfold find_auction. now rewrite Hauc. }
+  split.
+  - split; [exact Hb'|]. intros r j d. destruct (N.eq_dec j (a_id a)) as [->|Hj].
+    + unfold owed. rewrite Fa'. unfold bids_of. rewrite Hbids. fold (bids_of s (a_id a)). rewrite Hown.
+      specialize (E r (a_id a) d). unfold owed in E. rewrite Fa, Hst in E.
+      destruct Ha' as [->| ->].
+      * rewrite Hst. destruct r; cbn [is_open status_eqb orb] in *; rewrite ?andb_false_r in *; try apply Hb'.
+        rewrite andb_true_r in *. destruct (N.eqb d (a_pay_denom a)) eqn:Ed; [|apply Hb'].
+        apply N.eqb_eq in Ed. subst d. rewrite Hbv.
+        rewrite (sum_unreleased_after (a_id a) t (vqs_of s (a_id a))); [fold paid; lia|].
+        intros v Hv. apply in_vqs_of in Hv. apply Hv.
+      * cbn [a_status set_status a_sell_denom a_pay_denom a_sell_amt]. destruct r; cbn [is_open status_eqb orb]; rewrite ?andb_false_r; apply Hb'.
+    + unfold owed. rewrite (Hfind_other j Hj), (Hoth j Hj). unfold bids_of. rewrite Hbids. fold (bids_of s j).
+      specialize (E r j d). unfold owed in E.
+      assert (Hbj : st_bal s' (Escrow r j) d = st_bal s (Escrow r j) d).
+      { apply Hox; [intros Hc; inversion Hc; congruence|discriminate]. }
+      rewrite Hbj. exact E.
+  - intros x Hx Hxt. unfold bids_of. rewrite Hbids. fold (bids_of s (a_id x)).
+    destruct (last_due_rec t (vqs_of s (a_id a))).
+    + rewrite Hauc in Hx. apply in_put_auction in Hx. cbn [a_id set_status] in Hx. destruct Hx as [[_ Hx] | ->].
+      * apply (inv_remaining _ I x Hx Hxt).
+      * cbn [a_status set_status a_remaining a_sell_amt a_pay_denom a_id]. cbn [status_eqb].
+        pose proof (PrecondBase.find_auction_id _ _ _ Fa) as [_ Hin]. cbn [a_type set_status] in Hxt.
+        pose proof (inv_remaining _ I a Hin Hxt) as R. rewrite Hst in R. exact R.
+    + rewrite Hauc in Hx. apply (inv_remaining _ I x Hx Hxt).
 Qed.
